@@ -263,7 +263,8 @@ def body_wide(ctx, ny, nx, nk):
     gives the value of its own deepest layer that holds data."""
     from emsarray.operations import depth as depth_ops
     order = int(ctx.int('deep_first', 0, 1))
-    wet = (numpy.arange(ny)[:, None] * 3 + numpy.arange(nx)[None, :]) % (nk + 1)        # 0..nk wet layers, every count occurs
+    # 0..nk wet layers, every count occurs; the last rows / columns are among the deepest
+    wet = (nk - ((ny - 1 - numpy.arange(ny)[:, None]) * 3 + numpy.arange(nx)[None, :])) % (nk + 1)
     vals = numpy.full((nk, ny, nx), numpy.nan)
     for k in range(nk):
         vals[k][wet > k] = 100.0 * k + (numpy.arange(ny)[:, None] % 7 + numpy.arange(nx)[None, :] / 16.0)[wet > k]
@@ -271,9 +272,12 @@ def body_wide(ctx, ny, nx, nk):
     want = numpy.where(wet > 0, 100.0 * (wet - 1) + (numpy.arange(ny)[:, None] % 7 + numpy.arange(nx)[None, :] / 16.0), numpy.nan)
     if order:
         z, vals = z[::-1].copy(), vals[::-1].copy()
-    ds = xarray.Dataset({'temp': (('k', 'y', 'x'), vals), 'salt': (('y', 'x', 'k'), numpy.moveaxis(vals, 0, -1) + 0.25)},
+    ds = xarray.Dataset({'temp': (('k', 'y', 'x'), vals), 'salt': (('y', 'x', 'k'), numpy.moveaxis(vals, 0, -1) + 0.25),
+                         'row': (('k', 'x'), vals[:, ny - 1, :] + 0.5)},
                         coords={'zc': (('k',), z, {'positive': 'down'})})
     out = depth_ops.ocean_floor(ds, ['zc'])
+    ctx.check(tuple(out['row'].dims) == ('x',) and bool(numpy.array_equal(out['row'].values, want[ny - 1] + 0.5, equal_nan=True)),
+              'row: deepest layer that holds data')
     ctx.check(tuple(out['temp'].dims) == ('y', 'x') and bool(numpy.array_equal(out['temp'].values, want, equal_nan=True)),
               'temp: deepest layer that holds data, at every location and time')
     ctx.check(tuple(out['salt'].dims) == ('y', 'x') and bool(numpy.array_equal(out['salt'].values, want + 0.25, equal_nan=True)),
@@ -282,7 +286,7 @@ def body_wide(ctx, ny, nx, nk):
 
 def cases(tier):
     q = tier == 'quick'
-    for ny, nx, nk in ((257, 2, 3), (300, 5, 9), (3, 3, 9), (2, 260, 17)):
+    for ny, nx, nk in ((257, 2, 3), (300, 5, 9), (3, 3, 9), (2, 260, 17), (259, 3, 4), (2, 257, 3), (1027, 2, 10), (3, 66000, 2)):
         yield Case(f'wide:{ny}x{nx}:nk{nk}', body_wide, dict(ny=ny, nx=nx, nk=nk), max_paths=4)
     for nk in ((160,) if q else (160, 300, 33000)):
         yield Case(f'deep:nk{nk}', body_deep, dict(nk=nk), max_paths=4)
